@@ -20,12 +20,14 @@ def make_scratch(mut, src="/repo"):
                     ignore=shutil.ignore_patterns("__pycache__"))
     if mut is not None:
         mid, pid, rel, old, new, note = mut
-        p = os.path.join(d, rel)
-        s = open(p).read()
-        if s.count(old) != 1:
-            shutil.rmtree(d)
-            raise RuntimeError(f"mutant {mid}: anchor occurs {s.count(old)} times in {rel}")
-        open(p, "w").write(s.replace(old, new))
+        edits = rel if isinstance(rel, list) else [(rel, old, new)]
+        for rel, old, new in edits:
+            p = os.path.join(d, rel)
+            s = open(p).read()
+            if s.count(old) != 1:
+                shutil.rmtree(d)
+                raise RuntimeError(f"mutant {mid}: anchor occurs {s.count(old)} times in {rel}")
+            open(p, "w").write(s.replace(old, new))
     return d
 
 
